@@ -485,3 +485,58 @@ def trace_lockset(tr):
 
 def entry_locks(f):
     return {'param:' + p['name'] for p in f['params'] if 'unique_lock' in p['type'] and '&' in p['type']}
+
+
+def ret_const(tr):
+    """constant returned by the root function on this trace (None when not constant); a value returned by an expanded helper counts"""
+    d0 = min((it.get('depth', 0) for it in tr if it.k not in ('enter', 'leave', 'abort')), default=0)
+    for i in range(len(tr) - 1, -1, -1):
+        it = tr[i]
+        if it.k == 'return' and it.get('depth', 0) == d0:
+            if it.get('const') is not None:
+                return it.get('const')
+            if it.get('ret_ev') is not None:
+                for x in reversed(tr[:i]):
+                    if x.k == 'leave' and x.get('depth') == d0 and x.ev.get('id') == it['ret_ev']:
+                        return x.get('ret')
+            return None
+    return None
+
+
+def resume_bodies(db, name):
+    """the bodies that run when an awaiter set up inside `name` is resumed: local lambdas of `name` plus named functions it installs
+    as resume function (a maintainer may turn the capture-less lambda into a static member function)"""
+    out = list(lambdas_of(db, name)); seen = {(g['key'], g['inst']) for g in out}
+    try:
+        extra = resume_functions(db, name)
+    except Broken:
+        extra = []
+    for g in extra:
+        if (g['key'], g['inst']) not in seen:
+            seen.add((g['key'], g['inst'])); out.append(g)
+    return out
+
+
+def ret_expr(tr):
+    """textual path of the expression the root function returns on this trace; a value returned by an expanded helper is followed into the helper"""
+    d0 = min((it.get('depth', 0) for it in tr if it.k not in ('enter', 'leave', 'abort')), default=0)
+
+    def at(depth, hi):
+        for i in range(hi - 1, -1, -1):
+            it = tr[i]
+            if it.k == 'return' and it.get('depth', 0) == depth:
+                if it.get('ret_ev') is not None:
+                    for j in range(i - 1, -1, -1):
+                        x = tr[j]
+                        if x.k == 'leave' and x.get('depth') == depth and x.ev.get('id') == it['ret_ev']:
+                            inner = at(depth + 1, j)
+                            if inner is not None:
+                                return inner
+                            break
+                        if x.k == 'enter' and x.get('depth') == depth - 1:
+                            break
+                return it.get('path')
+            if it.k == 'enter' and it.get('depth') == depth - 1:
+                return None
+        return None
+    return at(d0, len(tr))
